@@ -644,6 +644,7 @@ class RequestHandler(BaseProtocol, Generic[_Request]):
                     "Response is sent already, cannot send another response "
                     "with the error message"
                 ) from exc
+            self._discard_prepared_response(request)
             resp = Response(
                 status=exc.status, reason=exc.reason, text=exc.text, headers=exc.headers
             )
@@ -905,6 +906,17 @@ class RequestHandler(BaseProtocol, Generic[_Request]):
         await self.log_access(request, resp, start_time)
         return resp, False
 
+    def _discard_prepared_response(self, request: BaseRequest) -> None:
+        """Start the error response from a pristine writer.
+
+        The handler may have prepared a response of its own without a byte
+        of it being sent (the headers are buffered): the framing that
+        response chose - chunked, a length, a compressor - must not be
+        applied to the body of the error response that replaces it.
+        """
+        if isinstance(request._payload_writer, StreamWriter):
+            request._payload_writer = StreamWriter(self, self._loop)
+
     def handle_error(
         self,
         request: BaseRequest,
@@ -927,6 +939,7 @@ class RequestHandler(BaseProtocol, Generic[_Request]):
                 "Response is sent already, cannot send another response "
                 "with the error message"
             )
+        self._discard_prepared_response(request)
 
         ct = "text/plain"
         if status == HTTPStatus.INTERNAL_SERVER_ERROR:
